@@ -60,3 +60,25 @@ Theorem C10_json_string_wellformed :
     Forall (fun c => (32 <=? c)%N = true) (interior (json_write_string s)) /\
     no_raw_quote false (interior (json_write_string s)) = true.
 Proof. exact json_write_string_interior. Qed.
+
+(* ---- MessagePack, concretely (Sem/Utf8, Sem/MsgPack: what rmp-serde writes and reads for integers
+   up to 64 bits and for strings, UTF-8 in between) ------------------------------------------------ *)
+From NV Require Import Sem.Utf8 Sem.MsgPack Lemmas.MsgPackLemmas.
+
+Theorem C10_utf8_roundtrip :
+  forall s : list N, Forall (fun c => scalar c = true) s -> utf8_decode (utf8_encode s) = Some s.
+Proof. exact utf8_decode_encode. Qed.
+Theorem C10_utf8_strict : forall b s : list N, utf8_decode b = Some s -> utf8_encode s = b.
+Proof. exact utf8_encode_decode. Qed.
+Theorem C10_msgpack_int_roundtrip :
+  forall (t : int_ty) (z : Z), in_ty t z = true -> (bits t <= 64)%Z -> mp_read_int t (mp_write_int z) = Some z.
+Proof. exact mp_read_write_int. Qed.
+Theorem C10_msgpack_str_roundtrip :
+  forall s : list N, Forall (fun c => scalar c = true) s ->
+    (N.of_nat (List.length (utf8_encode s)) < 4294967296)%N -> mp_read_str (mp_write_str s) = Some s.
+Proof. exact mp_read_write_str. Qed.
+Theorem C10_msgpack_int_minimal :
+  forall (b : list N) (z : Z), all_bytes b = true -> mp_int_value b = Some z ->
+    (List.length (mp_write_int z) <= List.length b)%nat.
+Proof. exact mp_write_int_minimal. Qed.
+Print Assumptions C10_msgpack_str_roundtrip.
